@@ -13,7 +13,7 @@ PROPS = {
         "floors": {
             "quick": {"ops": 100000, "std_triples": 10000, "drift_rechecks": 10000, "exh3_blocks": 96,
                       "unique_table_grows": 100, "lru_overwrites": 1000, "op_compose": 100, "op_condition_model": 100, "op_new_var": 20,
-                      "histories_over_spread_labels": 300, "histories_with_weak_hashes": 300, "unique_table_hash_clashes": 1000},
+                      "histories_over_spread_labels": 300, "histories_with_weak_hashes": 300, "unique_table_hash_clashes": 1000, "order_handles_held_across_new_var": 100},
             "thorough": {"ops": 2000000, "exh3_blocks": 192},
         },
         "rule": "Every builder call is one evaluation: the returned BddPtr is walked structurally (var, low, high, complement bit) into a truth table and compared with the operation's definition applied to the oracle tables of its arguments (compose = documented exists v.(v<=>g)&f). Regimes: exh3 = all 256 functions of 3 variables x all 6 orders x both caches: all cofactors, exists, negations, all pairs for and/or/xor/iff/compose, ite over all (f,g) and every 16th h (every h in thorough); rand = short random histories (5-80 ops, <=6 vars, random order permutation, both caches, hook capacities from tiny to 1024); long = 800-2000-op histories on <=10 variables with 2..64-slot unique tables and 1..16-slot lossy caches; default (thorough) = library-default capacities. After every 16 ops all earlier results are re-walked (history independence). A case is non-trivial when the expected function is neither constant nor a literal; distinct = distinct (operation, expected function, order, cache kind) tuples (hash set), for exh3 distinct (op, argument indices, order/cache case). Wide regime: the history's (at most 6 + run-time) variables are spread over up to 200 rsdd labels, biased to the 64/128 word boundaries, in a manager that knows every label up to the largest (order = random interleaving); the oracle keeps working on the dense variables through the harness's own label map and level map.",
@@ -173,7 +173,7 @@ PROPS = {
             "quick": {"hash_checks": 20000, "bdd_representations": 2000, "sdd_representations": 1300, "ddnnf_representations": 300,
                       "semantic_sdd_ops": 8000, "eq_on_equal_functions": 50000, "semantic_ddnnf_compilations": 450,
                       "semantic_ddnnf_conditionings": 2000, "semantic_sdd_compile_cnf": 500,
-                      "untrimmed_nodes_denoting_literal_or_constant": 100, "builder_hash_accessor_checks": 500, "semantic_builders_over_spread_labels": 100, "semantic_big_builders": 2, "semantic_big_minterms_checked": 500000, "moduli_factored": 1, "zero_divisor_conjunctions_checked": 1},
+                      "untrimmed_nodes_denoting_literal_or_constant": 100, "builder_hash_accessor_checks": 500, "semantic_builders_over_spread_labels": 100, "semantic_big_builders": 2, "semantic_big_minterms_checked": 500000, "moduli_factored": 1, "zero_divisor_conjunctions_checked": 1, "collision_witnesses_checked": 2},
             "thorough": {"hash_checks": 600000},
         },
         "rule": "One evaluation = one hash or one semantic-builder operation. (hash) For a function f on <= 7 variables (parity, ite(x,g,!g), threshold, random, CNF-derived) and each prime in {U32_TINY, U32_SMALL, U64_LARGEST} the defining sum over the models of f of the product of create_semantic_hash_map weights is computed from the truth table with the harness's own modular arithmetic and compared with semantic_hash of BDDs under 3 random orders, SDDs under 2 random vtrees and top-down decision-DNNFs under 2 random orders (so all representations agree with each other); the negation must hash to 1 - h; cached_semantic_hash (asked twice, and through a second construction history) must equal it (one prime per builder, S3); hand-built BinarySDD / BddNode values made with the public constructors (also with complemented high edges, which no builder stores) must hash to the defining sum of the function they denote; the hash weights must sum to one. (semantic builders) SemanticSddBuilder<P> is driven through random and/or/negate/condition/exists histories (with templates that leave an untrimmed node denoting a literal and that reach one function along two routes) and compile_cnf, SemanticDecisionNNFBuilder<P> through compile_cnf_topdown and condition: for every prime eq() must be true on every pair of pool members (both polarities, both argument orders) whose oracle truth tables are equal; over U64_LARGEST every returned diagram must have the right truth table, under 32-bit primes a wrong table is a hash collision and only recorded (S4). Non-trivial = function neither constant nor literal; distinct = distinct (function, representation, sub-check) / (function, op, vtree). The semantic SDD builder's own accessors are checked too (cached_semantic_hash == recomputed == defining sum under the builder's map()), and a wide regime runs the semantic SDD histories over vtrees whose variables are spread over up to 200 labels. Scale regime semantic_big: one hash-identified builder (d-DNNF store, and SDD builder on a right-linear vtree) is filled with every suffix cube over 18 variables (524 286 nodes; 20 variables in the thorough tier) through get_or_insert / and, and each of the 2^18 full cubes is then evaluated structurally on its own assignment and two neighbours: a merge of two different functions (a collision in whatever part of the 64-bit hash the node table compares) shows as a cube that does not denote its minterm. Regime zero_divisors factors the 64-bit modulus (Miller-Rabin, Pollard rho); if it is composite with a balanced split it constructs, by meet in the middle over the minterm weights of the builder's own map, two 6-variable functions whose hashes multiply to zero, builds them with and/or and checks and(a, b) against the truth table (finding F14); with a prime modulus it checks the conjunction of two fixed functions.",
@@ -209,7 +209,7 @@ PROPS = {
         "py_leg": "c17_reader",
         "floors": {
             "quick": {"dimacs_parsed": 800, "dimacs_roundtrips": 800, "sexprs_parsed": 850, "bdds_serialised": 2500, "sdds_serialised": 2500,
-                      "vtrees_serialised": 190, "py_read_bdd": 2500, "py_read_sdd": 2500, "py_read_vtree": 190, "py_complemented_roots": 500, "diagrams_over_spread_labels": 100, "dimacs_texts_with_large_variable_numbers": 150, "library_evaluator_tables": 1500},
+                      "vtrees_serialised": 190, "py_read_bdd": 2500, "py_read_sdd": 2500, "py_read_vtree": 190, "py_complemented_roots": 500, "diagrams_over_spread_labels": 100, "dimacs_texts_with_large_variable_numbers": 150, "library_evaluator_tables": 1500, "dimacs_degenerate_texts": 100, "dimacs_texts_without_clauses": 20, "dimacs_texts_with_zero_variables": 10},
             "thorough": {"py_read_bdd": 100000},
         },
         "rule": "One evaluation = one text parsed or one object serialised. DIMACS: the harness prints its own clause list (1-based, with comments, irregular spacing, duplicate and complementary literals), Cnf::from_dimacs must have the models of the text with variable i -> label i-1 (evaluated structurally and through eval), LogicalExpr::from_dimacs with variable i -> label i (S8, evaluated by the harness's own AST evaluator); to_dimacs + header + from_dimacs must give the same clause sets. S-expressions: random expression trees over all 7 constructors with names chosen so that bytewise-lexicographic order differs from first-occurrence and numeric order; variable_mapping must be the lexicographic numbering of the occurring names and the parsed expression must have the text's models under it. Serialisers: BDDSerializer / SDDSerializer / VTreeSerializer output (serde_json) for constants, single literals, results of random operation histories and their negations (shared nodes, complemented roots and edges) is written to a side file with the oracle truth table and read by an independent PYTHON reader (node table + complement flags -> truth table; vtree -> nested lists) which must reproduce the table / tree. Non-trivial = function neither constant nor literal; distinct = distinct texts / JSON strings. A quarter of the DIMACS texts use large non-contiguous variable numbers (up to 200) and a quarter of the serialised diagrams live in managers / vtrees whose variables are spread over up to 200 labels (the Python reader gets the label of each variable); the parsed formulas are also evaluated with the library's own LogicalExpr::eval on every assignment.",
@@ -219,7 +219,7 @@ PROPS = {
         "profiles": {"quick": [], "thorough": []},
         "py_leg": "c19_cli",
         "floors": {
-            "quick": {"cli_wmc": 2100, "cli_formula_to_bdd": 1050, "cli_cnf_to_bdd": 1050, "cli_with_configured_order": 1200},
+            "quick": {"cli_wmc": 2100, "cli_formula_to_bdd": 1050, "cli_cnf_to_bdd": 1050, "cli_with_configured_order": 1200, "cli_cnf_without_nonempty_clause": 15},
             "thorough": {"cli_wmc": 28000},
         },
         "rule": "One evaluation = one invocation of a binary built from /repo with --features cli (cargo build into /verif/target/repo) on generated input files. weighted_model_count (single-count mode, no partials): random s-expression over <= 7 named variables (names chosen so that lexicographic order differs from first-occurrence and numeric order), a weights file with dyadic weights (normalised or arbitrary eighths in [0,1.5]) that sometimes omits a formula variable (documented default 0/0) and sometimes names extra variables, and in 60% of the cases a config with a random order over all variables; expected = number of models and exact weighted sum (fractions.Fraction) over formula + weight-file variables; the printed float is converted exactly and must equal the sum. bottomup_formula_to_bdd (linear or manual order) and bottomup_cnf_to_bdd (--order auto_minfill / auto_force; DIMACS written one clause per line, several clauses per line, or wrapped over lines with the terminating 0 alone on a line; with auto_minfill occasionally an empty clause): the emitted JSON is read by the independent Python node-table reader and must denote the input formula (lexicographic numbering) / CNF (0-based). A non-zero exit status on an in-domain input is a violation. The quick tier runs the dev-profile binaries; the thorough tier alternates with the release-profile binaries (as shipped: no overflow checks, lto, panic=abort). Non-trivial = the formula is neither valid nor unsatisfiable; distinct = distinct inputs.",
@@ -232,7 +232,7 @@ PROPS = {
         "floors": {
             "quick": {"c_calls": 5000, "c_eq_pairs": 100000, "c_wmc": 15000, "c_model_counts": 5000, "c_weight_roundtrips": 2000,
                       "c_frontend_calls": 2500, "c_compose": 300, "c_new_var": 30, "c_ite": 1000,
-                      "c_weights_overwritten_between_counts": 400},
+                      "c_weights_overwritten_between_counts": 400, "isolated_c_sequences": 12, "c_calls_on_a_reused_cnf_handle": 40, "null_array_calls": 3},
             "thorough": {"c_calls": 150000},
         },
         "sanitizers": ["miri_ffi", "asan_ffi", "valgrind_ffi"],
@@ -251,7 +251,7 @@ QUICK_SCALE = {"C01": 8, "C02": 24, "C03": 30, "C04": 24, "C05": 15, "C06": 10, 
 # thorough tier: sized so that each property takes roughly 1-5 minutes on 16 cores
 THOROUGH_SCALE = {"C01": 80, "C02": 64, "C03": 800, "C04": 200, "C05": 150, "C06": 100, "C07": 80, "C08": 300, "C09": 120,
                   "C10": 40, "C11": 120, "C12": 800, "C13": 300, "C14": 150, "C15": 80, "C16": 60, "C17": 300, "C18": 64}
-UNSCALED = {"moduli_factored", "zero_divisor_conjunctions_checked", "force_on_the_clause_free_formula", "witness_states", "witness_compilations", "lru_default_size_grows", "semantic_big_builders", "semantic_big_minterms_checked", "bitgrid_pairs", "exh3_blocks", "exh3_orders", "domains_exhaustive", "shapes_enumerated", "edge_cases", "default_table_growths",
+UNSCALED = {"isolated_c_sequences", "c_calls_on_a_reused_cnf_handle", "null_array_calls", "collision_witnesses_checked", "moduli_factored", "zero_divisor_conjunctions_checked", "force_on_the_clause_free_formula", "witness_states", "witness_compilations", "lru_default_size_grows", "semantic_big_builders", "semantic_big_minterms_checked", "bitgrid_pairs", "exh3_blocks", "exh3_orders", "domains_exhaustive", "shapes_enumerated", "edge_cases", "default_table_growths",
             "big_rederivations", "triples", "pairs", "lattice_pairs", "field_sub_pairs"}
 for _pid, _k in QUICK_SCALE.items():
     _c = PROPS[_pid]
